@@ -696,7 +696,9 @@ class DefaultCodec(Codec):
             # If this is an InMemoryPartition, remember the output keys so they can be
             # referred to when merging partitions in the future
             if hasattr(obj, "_output_keys") and hasattr(obj, "_parent_data_source"):
-                obj._output_keys = output_keys
+                # Remember the complete index (including the keys inherited from the merge
+                # parent), so that a partition merged with this one inherits them as well
+                obj._output_keys = dict(index)
                 obj._parent_data_source = data_source
 
             # noinspection PyProtectedMember
